@@ -196,6 +196,9 @@ func transportConfigs(thorough bool) []tconfig {
 	// request bodies against a SETTINGS_MAX_FRAME_SIZE the server raises and lowers while a body is being sent
 	out = append(out, tconfig{Name: "transport/send/maxframe", SrvIWS: 1 << 20, ConnRoom: -1, PerStream: 20000, PerConn: 65535, SrvMaxFrame: 40000,
 		BodyN: []int64{30000}, WUk: []int64{65535}, MaxFrameV: []int64{16384, 40000}, MaxStreams: 1, Depth: depth + 1})
+	// fewer stream slots than requests: a request waits inside the Transport while the server changes its settings
+	out = append(out, tconfig{Name: "transport/send/maxstreams", SrvIWS: 1000, ConnRoom: -1, PerStream: 20000, PerConn: 65535, SrvMaxStreams: 1,
+		BodyN: []int64{2000}, SetV: []int64{5, 100000}, WUk: []int64{7}, MaxStreams: 2, Depth: depth + 2})
 	// a server that stops reading for a while: the Transport's writes (DATA, WINDOW_UPDATE, RST_STREAM) block
 	out = append(out, tconfig{Name: "transport/pause/send", SrvIWS: ledger.DefaultWindow, ConnRoom: -1, PerStream: 20000, PerConn: 65535,
 		BodyN: []int64{1000}, Pause: true, NoRet: true, MaxStreams: 2, Depth: depth + 3})
@@ -228,6 +231,19 @@ func cycleConfigs(thorough bool) []config {
 			DataLen: lens, Pads: pads, DataEnd: true, ReadN: []int64{1, 100000}, ClosedLen: []int64{5, 16384}, MaxStreams: 1, Depth: depth})
 	}
 	return out
+}
+
+// a client that announces GOAWAY(NO_ERROR) and goes on using the streams it has
+func goawayConfigs(thorough bool) []config {
+	depth := 5
+	if thorough {
+		depth = 6
+	}
+	return []config{
+		{Name: "goaway/send", Mode: "send", IWS0: 5, ConnRoom: -1, WriteN: []int64{12}, WUk: []int64{7, maxW}, GoAway: true, MaxStreams: 2, Depth: depth},
+		{Name: "goaway/recv", Mode: "recv", PerStream: 20000, PerConn: 65535, RecvRoom: -1, DataLen: []int64{5, 16384}, Pads: []int{-1}, ReadN: []int64{100000},
+			ClosedLen: []int64{5}, GoAway: true, MaxStreams: 2, Depth: depth},
+	}
 }
 
 // a client that stops reading for a while: the server's writes (DATA, WINDOW_UPDATE, RST_STREAM) block
@@ -695,6 +711,9 @@ func TestCheck(t *testing.T) {
 		cfgs = append(cfgs, serverSpace(c))
 	}
 	for _, c := range pauseConfigs(thorough) {
+		cfgs = append(cfgs, serverSpace(c))
+	}
+	for _, c := range goawayConfigs(thorough) {
 		cfgs = append(cfgs, serverSpace(c))
 	}
 	for _, c := range transportConfigs(thorough) {
